@@ -1,0 +1,25 @@
+//go:build verif
+
+// Package verifhook marks the few places where a verification harness may
+// hold the background flusher (build tag verif only).
+package verifhook
+
+import "sync/atomic"
+
+var handler atomic.Value // of func(site, dir string)
+
+// SetHandler installs (or, with nil, removes) the function called at every Point.
+func SetHandler(h func(site, dir string)) {
+	if h == nil {
+		h = func(string, string) {}
+	}
+	handler.Store(h)
+}
+
+// Point calls the installed handler. Every call site holds no lock other than
+// oracle.writeLock, so a handler may block.
+func Point(site, dir string) {
+	if h, ok := handler.Load().(func(site, dir string)); ok {
+		h(site, dir)
+	}
+}
